@@ -155,7 +155,7 @@ def normalize(toks, lo, hi, features, crate_mod, log):
 
 
 # N3: std methods whose signature assume_specification cannot name -> trusted wrapper of the same contract
-RENAMES = {'to_be_bytes': 'to_be_bytes_x', 'sort': 'sort_x', 'sort_unstable': 'sort_x', 'dedup': 'dedup_x', 'extend': 'extend_x',
+RENAMES = {'to_be_bytes': 'to_be_bytes_x', 'to_le_bytes': 'to_le_bytes_x', 'sort': 'sort_x', 'sort_unstable': 'sort_x', 'dedup': 'dedup_x', 'extend': 'extend_x',
            # std: `impl<T: Clone> ToOwned for T { fn to_owned(&self) -> T { self.clone() } }` (all uses are on Clone values)
            'to_owned': 'clone'}
 
